@@ -667,6 +667,27 @@ func (n *node) release(ans string) string {
 	return "released:" + c.kind + ":" + h8([]byte(a.hash)) + desc
 }
 
+// lateProposal: the strategy sends a proposal on the channel it was given by the current round's EnterRound,
+// at any later moment of the round.
+func (n *node) lateProposal() string {
+	var c *stratCall
+	for i := len(n.calls) - 1; i >= 0; i-- {
+		if n.calls[i].kind == "enter" {
+			c = n.calls[i]
+			break
+		}
+	}
+	if c == nil || c.out == nil || c.h != n.curH || c.r != n.curR {
+		return "n/a:no-proposal-channel"
+	}
+	select {
+	case c.out <- tmconsensus.Proposal{DataID: fmt.Sprintf("data-N-%d", c.h)}:
+		return "proposed-late"
+	default:
+		return "n/a:proposal-channel-full"
+	}
+}
+
 func (n *node) fireTimer() string {
 	ts := n.outstandingTimers()
 	if len(ts) == 0 {
